@@ -205,6 +205,113 @@ def run(ctx):
             ctx.violation('counterexample', 'a transformation step added no description entry', dict(input=dict(chain=names, header_before=h0), header_after=hk),
                           True, site='header', cls='missing-entry')
 
+    # ---------- chains whose headers are edited between the steps, headers without a description, user-made headers ----------
+    reqs, checks = [], []
+    size_keeping = [t for t in transformations() if t[0] in ('flip', 'shuffle')] + [
+        ('xor', lambda F: cnfgen.XorSubstitution(F, 1)), ('maj', lambda F: cnfgen.MajoritySubstitution(F, 1)), ('or', lambda F: cnfgen.OrSubstitution(F, 1)),
+        ('shuffle', lambda F: cnfgen.Shuffle(F)), ('shuffle', lambda F: cnfgen.Shuffle(F))]
+    for i in range(60 if quick else 600):
+        F = rand_cnf()
+        shape = rng.choice(['plain', 'no-description', 'user-header', 'note-first'])
+        if shape == 'no-description':
+            del F.header['description']
+        elif shape == 'user-header':
+            F.header.clear()
+            F.header['author'] = 'somebody'
+            F.header['purpose'] = 'a user-made header'
+        elif shape == 'note-first':
+            F.header['note'] = 'before anything'
+        ctx.tally('edited chain: initial header', shape)
+        for j in range(rng.randint(2, 5)):
+            name, t = rng.choice(size_keeping)
+            hb = list(F.header.items())
+            r = outcome(t, F)
+            if r[0] != 'ok':
+                break
+            G = r[1]
+            ha = list(G.header.items())
+            if list(F.header.items()) != hb:
+                ctx.violation('counterexample', 'transformation %s modified the header of its input' % name, dict(input=dict(transformation=name, header_before=hb)),
+                              True, site='input-mutated', cls=name + '-header')
+            new = [v for (k, v) in ha if (k, v) not in hb and str(k).startswith('transformation ')]
+            reqs.append(cmd('header_chain', hdr_sx(hb), [[Sym(name), new[0] if new else '']]))
+            checks.append((hb, ha, name, shape, j))
+            F = G
+            edit = rng.choice(['none', 'note', 'note', 'description', 'seed'])
+            if edit == 'note':
+                F.header['note %d' % j] = 'written by the user after step %d' % (j + 1)
+            elif edit == 'description':
+                F.header['description'] = 'renamed by the user'       # an existing key keeps its place, a deleted one comes back last
+            elif edit == 'seed':
+                F.header['random seed'] = 42
+            ctx.tally('edited chain: edit after a step', edit)
+    replies = ctx.model.batch(reqs)
+    for (hb, ha, name, shape, j), rep in zip(checks, replies):
+        ctx.count('edited-chains', (repr(hb), name), nontrivial=True, sample=dict(step=name, header_before=hb, header_after=ha[-2:]))
+        want = [(('transformation %d' % k[1]) if k[0] == 't' else k[1], v) for k, v in rep]
+        got = [(str(k), str(v)) for k, v in ha]
+        if want == got:
+            continue
+        ctx.disagreements_checked += 1
+        hb_s = [(str(k), str(v)) for k, v in hb]
+        kept = all(any(k1 == k0 and (v1 == v0 or (k0 == 'description' and v1.startswith(v0))) for k1, v1 in got) for k0, v0 in hb_s)
+        fresh = [k for k, _ in got if k.startswith('transformation ') and k not in [k0 for k0, _ in hb_s]]
+        if not kept or len(fresh) != 1 or len(got) != len(hb_s) + 1:
+            ctx.violation('counterexample', 'step %s on a header that %s: %s' % (name, 'was edited by the user' if j else 'is ' + shape,
+                          'an earlier entry was lost or overwritten' if not kept else 'the step did not gain exactly one numbered entry'),
+                          dict(input=dict(step=name, header_before=hb), header_after=ha, model=want), True, site='header', cls='edited-' + ('lost' if not kept else 'count'))
+        else:
+            ctx.violation('correspondence', 'header differs from Header.v add_description (theorem C19_chain no longer covers the code)',
+                          dict(input=dict(step=name, header_before=hb), header_after=ha, model=want, theorem='C19_chain'), False, site='header', cls='model-mismatch')
+
+    # ---------- networkx graphs handed to generators (attributes as a dot file gives them: strings) ----------
+    import networkx as nx
+
+    def snap_nx(H):
+        return repr((sorted((repr(k), repr(sorted(d.items()))) for k, d in H.nodes(data=True)),
+                     sorted((repr(u), repr(v), repr(sorted(d.items()))) for u, v, d in H.edges(data=True)), sorted(H.graph.items()), type(H).__name__))
+    for i in range(10 if quick else 100):
+        l, r_ = rng.randint(1, 4), rng.randint(1, 4)
+        style = rng.choice(['int', 'str', 'str', 'bool'])
+        enc = {'int': lambda b: b, 'str': lambda b: str(b), 'bool': lambda b: bool(b)}[style]
+        H = nx.Graph(name='user graph')
+        ln = ['p%d' % a for a in range(l)]
+        rn = ['h%d' % b for b in range(r_)]
+        order = [(x, 0) for x in ln] + [(x, 1) for x in rn]
+        if rng.random() < 0.5:
+            rng.shuffle(order)
+        for x, side in order:
+            H.add_node(x, bipartite=enc(side), color='red')
+        for a in ln:
+            for b in rn:
+                if rng.random() < 0.6:
+                    H.add_edge(a, b, weight='3')
+        S = nx.Graph(name='simple user graph')
+        S.add_nodes_from(['a', 'b', 'c', 'd'], shape='box')
+        S.add_edges_from([e for e in [('a', 'b'), ('b', 'c'), ('c', 'd'), ('a', 'd'), ('a', 'c')] if rng.random() < 0.7], label='e')
+        Dg = nx.DiGraph(name='user dag')
+        Dg.add_nodes_from(['s1', 's2', 'm', 't'], rank='1')
+        Dg.add_edges_from([('s1', 'm'), ('s2', 'm'), ('m', 't')])
+        nxcalls = [
+            ('GraphPigeonholePrinciple(networkx)', H, lambda H=H: cnfgen.GraphPigeonholePrinciple(H)),
+            ('SubsetCardinalityFormula(networkx)', H, lambda H=H: cnfgen.SubsetCardinalityFormula(H)),
+            ('BipartiteGraph.from_networkx', H, lambda H=H: cnfgen.BipartiteGraph.from_networkx(H)),
+            ('VariableCompression(networkx)', H, lambda H=H: cnfgen.VariableCompression(CNF([list(range(1, len(ln) + 1))]), H, function='maj')),
+            ('GraphColoringFormula(networkx)', S, lambda S=S: cnfgen.GraphColoringFormula(S, 2)),
+            ('TseitinFormula(networkx)', S, lambda S=S: cnfgen.TseitinFormula(S)),
+            ('Graph.from_networkx', S, lambda S=S: cnfgen.Graph.from_networkx(S)),
+            ('PebblingFormula(networkx)', Dg, lambda Dg=Dg: cnfgen.PebblingFormula(Dg)),
+            ('DirectedGraph.from_networkx', Dg, lambda Dg=Dg: cnfgen.DirectedGraph.from_networkx(Dg)),
+        ]
+        for name, A, f in nxcalls:
+            before = snap_nx(A)
+            r = outcome(f)
+            ctx.count('purity-networkx', (name, before), nontrivial=True, sample=dict(call=name, graph=before[:200]))
+            ctx.tally('networkx argument: bipartite attribute style', style if A is H else 'n/a')
+            if snap_nx(A) != before:
+                ctx.violation('counterexample', '%s modified the networkx graph it was given (node/edge attributes or structure)' % name,
+                              dict(input=dict(call=name, graph=before), after=snap_nx(A)), True, site='argument-mutated', cls=name)
+
     # ---------- purity of generators and builders on graph / list arguments ----------
     calls = []
     for _ in range(12 if quick else 120):
